@@ -53,7 +53,7 @@ def gen_inputs(rng, N, cfg, small):
         ADD_CELLULOSIC_SUGAR=True, SCP_GLOBAL_PRODUCTION_FRACTION=rng.uniform(0, 0.2), CS_GLOBAL_PRODUCTION_FRACTION=rng.uniform(0, 0.2),
         ADD_SEAWEED=True, SEAWEED_MAX_AREA_FRACTION=rng.uniform(0.001, 0.2), SEAWEED_NEW_AREA_FRACTION=rng.uniform(0.001, 0.2),
         INITIAL_SEAWEED_FRACTION=rng.uniform(0.001, 0.2), MAX_SEAWEED_AS_PERCENT_KCALS_HUMANS=10, MAX_SEAWEED_AS_PERCENT_KCALS_FEED=10,
-        MAX_SEAWEED_AS_PERCENT_KCALS_BIOFUEL=10, SEAWEED_GROWTH_PER_DAY={str(i + 1): rng.uniform(0, 12) for i in range(N)},
+        MAX_SEAWEED_AS_PERCENT_KCALS_BIOFUEL=10, SEAWEED_GROWTH_PER_DAY={str(i + 1): rng.uniform(0, 12) for i in range(N + 24)},   # (the table is longer than the horizon)
         FEED_KCALS=scale * rng.uniform(0, 200), FEED_FAT=rng.uniform(0, 100), FEED_PROTEIN=rng.uniform(0, 100),
         BIOFUEL_KCALS=scale * rng.uniform(0, 50), BIOFUEL_FAT=rng.uniform(0, 10), BIOFUEL_PROTEIN=rng.uniform(0, 10),
         HUMAN_INEDIBLE_FEED_BASELINE_MONTHLY=scale * rng.uniform(1, 400), ADD_MILK=True, ADD_MEAT=True, TONS_MILK_ANNUAL=1.0,
@@ -165,9 +165,12 @@ def run_real(c, fish_pct):
         res["scp"] = np.array(tc["methane_scp"].kcals, dtype=float)
         co, tc, cs = par.init_cs_params(co, tc, c)
         res["cs"] = np.array(tc["cellulosic_sugar"].kcals, dtype=float)
-        sw = Seaweed(c)
-        res["sw_area"] = np.array(sw.get_built_area(c), dtype=float)
-        res["sw_growth"] = np.array(sw.get_growth_rates(c), dtype=float)
+        # (through the glue as well: what the optimiser is handed is the first NMONTHS entries of the tables)
+        got_sw = par.set_seaweed_params(co, c)
+        res["sw_area"] = np.array(got_sw[1], dtype=float)
+        # (the growth table may be longer than the horizon - the shipped one has 120 entries whatever the horizon; the optimiser reads
+        # entry m in month m, so the first NMONTHS entries are the series)
+        res["sw_growth"] = np.array(got_sw[2], dtype=float)[:c["NMONTHS"]]
         co["ADD_STORED_FOOD"] = True
         co, st = par.init_stored_food(co, c, oc)
         res["stored_food"] = float(np.asarray(st.initial_available.kcals).reshape(-1)[0])
